@@ -85,6 +85,9 @@ func (a *verifFilter) Start(AnyConfig, *ActionPluginParams) {}
 func (a *verifFilter) Stop()                                 {}
 func (a *verifFilter) Do(e *Event) ActionResult {
 	if e.IsTimeoutKind() {
+		// only the multi-line actions understand time-out events (their Root is nil): every other
+		// action dereferences Root, i.e. the collector would crash here
+		vf.Fail("time-out-event-delivered-to-an-action-that-holds-nothing")
 		return ActionDiscard
 	}
 	if a.enabled && vf.Choose("filter-discards", 2) == 1 {
@@ -221,6 +224,9 @@ func VerifH_C01_pipeline() {
 			proc.AddActionPlugin(filterInfo)
 		case !withJoin:
 			proc.AddActionPlugin(filterInfo)
+		case vf.Param("two-joins", 0) == 1:
+			proc.AddActionPlugin(joinInfo)
+			proc.AddActionPlugin(&ActionPluginInfo{ActionPluginStaticInfo: &ActionPluginStaticInfo{PluginStaticInfo: &PluginStaticInfo{Type: "joiner2"}}, PluginRuntimeInfo: &PluginRuntimeInfo{Plugin: &verifJoiner{w: w, ctl: proc}}})
 		case vf.Param("filter-after-join", 0) == 1:
 			proc.AddActionPlugin(joinInfo)
 			proc.AddActionPlugin(filterInfo)
